@@ -31,6 +31,7 @@ Next ==
        \/ \E p \in Objs, n \in Names, pr \in BOOLEAN : NewChild(p, n, pr) /\ Report(<<"NewChild", p, n, pr>>)
        \/ \E b \in Objs, w \in WireIds : AddIn(b, w) /\ Report(<<"AddIn", b, w>>)
        \/ \E b \in Objs, w \in WireIds : AddOut(b, w) /\ Report(<<"AddOut", b, w>>)
+       \/ \E b \in Objs, w \in WireIds : AddInOut(b, w) /\ Report(<<"AddInOut", b, w>>)
        \/ \E w \in WireIds, n \in Names : Rename(w, n) /\ Report(<<"Rename", w, n>>)
        \/ \E w \in WireIds, p \in Objs : Reparent(w, p) /\ Report(<<"Reparent", w, p>>)
        \/ \E w \in WireIds, p \in Objs, n \in Names : ReparentAndRename(w, p, n) /\ Report(<<"ReparentAndRename", w, p, n>>)
